@@ -1,6 +1,6 @@
 (* C11 property theorems.  Model: Model.v (legacy = false is the code with fixes/01 and fixes/02). *)
 From OlaBase Require Import Bytes.
-From C11 Require Import Gen Model Lemmas Term3 E120 Complete2.
+From C11 Require Import Gen Model Session Lemmas Term3 E120 Complete2 SessInv SessThm.
 Local Open Scope N_scope.
 
 (* Termination, exactly-once completion and absence of the modelled hazards (dangling parent range,
@@ -66,6 +66,85 @@ Example c11_e120_run :
   result e = Some (true, [5; 6; 7; 281474976710654]) /\ completions e = 1.
 Proof. exact e120_example. Qed.
 
+(* ---------- histories: Starts, replies and Aborts in any order, state carried between runs ----------
+   Session.v: a session is the agent plus the bookkeeping of the client: every Start gets the next id;
+   [events] lists the completion callbacks that ran (id, status, UID set).
+     s_start inc act : StartFullDiscovery / StartIncrementalDiscovery whose completion callback does [act]
+                       (nothing, or start another full / incremental discovery from inside the callback);
+                       refused when m_on_complete is set: its callback runs at once with (false, {});
+     s_reply a       : the target answers the outstanding request with a (ignored if there is none);
+     s_abort         : Abort(): stack emptied, m_on_complete cleared and THEN its callback run with
+                       (false, {}); m_uids, m_uids_to_mute and the bad/split sets are kept; the request in
+                       flight is dropped by the line.  A Start from inside THIS callback is accepted.
+     a Start from inside the callback run by SendDiscovery is refused (m_on_complete still set).
+   For EVERY history from the initial state, with arbitrary reply bytes: no modelled hazard; no Start is
+   completed twice; every Start issued so far has been completed exactly once, except the one that owns
+   the running discovery, which has not been completed yet and IS completed by finitely many further
+   replies, whatever they are. *)
+Theorem c11_sessions :
+  forall ops : list op,
+    (forall o, In o ops -> match o with OReply a => len (a_data a) < 4294967296 | _ => True end) ->
+    let ss := run_ops ops sess0 in
+    pending (ag ss) <> PHazard /\
+    NoDup (map eid (events ss)) /\
+    (forall i, In i (map eid (events ss)) -> i < next_id ss) /\
+    (forall i, i < next_id ss ->
+       In i (map eid (events ss)) \/ (on_complete (ag ss) = true /\ owner ss = i)) /\
+    (on_complete (ag ss) = true -> ~ In (owner ss) (map eid (events ss))) /\
+    (on_complete (ag ss) = true ->
+     forall f : nat -> answer, (forall i, len (a_data (f i)) < 4294967296) ->
+     exists k, on_complete (ag (s_replies k f ss)) = false /\
+               In (owner ss) (map eid (events (s_replies k f ss)))).
+Proof. exact sessions_w. Qed.
+Print Assumptions c11_sessions.
+
+(* a Start while a discovery is running is refused: its own callback runs with (false, {}) and the agent
+   is untouched (exactly-once for it follows from c11_sessions) *)
+Theorem c11_refused_start :
+  forall (ss : sess) (inc : bool) (act : cbact),
+    on_complete (ag ss) = true ->
+    In (next_id ss, false, []) (events (s_start inc act ss)) /\ ag (s_start inc act ss) = ag ss.
+Proof. exact refused_w. Qed.
+Print Assumptions c11_refused_start.
+
+(* Abort() of a running discovery completes it with (false, {}); what it leaves behind *)
+Theorem c11_abort :
+  forall ss : sess,
+    (on_complete (ag ss) = true ->
+       In (owner ss, false, []) (events (s_abort ss)) /\
+       (owner_act ss = ANone ->
+          on_complete (ag (s_abort ss)) = false /\ pending (ag (s_abort ss)) = PIdle /\
+          stack (ag (s_abort ss)) = [] /\ uids (ag (s_abort ss)) = uids (ag ss) /\
+          queue (ag (s_abort ss)) = queue (ag ss))) /\
+    (on_complete (ag ss) = false -> events (s_abort ss) = events ss /\ next_id (s_abort ss) = next_id ss).
+Proof. exact abort_w. Qed.
+Print Assumptions c11_abort.
+
+(* a Start issued from inside the completion callback of a run that finished normally is refused and
+   completed once with (false, {}), after the outer completion *)
+Theorem c11_nested_start :
+  forall (ss : sess) (a : answer),
+    on_complete (ag ss) = true -> on_complete (step false (ag ss) a) = false -> owner_act ss <> ANone ->
+    events (s_reply a ss) =
+      (next_id ss, false, []) ::
+      (owner ss, fst (res_of (step false (ag ss) a)), snd (res_of (step false (ag ss) a))) :: events ss /\
+    ag (s_reply a ss) = step false (ag ss) a.
+Proof. exact nested_w. Qed.
+Print Assumptions c11_nested_start.
+
+(* completeness of a FULL discovery started in ANY state in which no discovery is running - whatever
+   mute queue, UID sets, range stack or counters earlier (possibly aborted) runs left behind *)
+Theorem c11_complete_any_state :
+  forall (ss : sess) (act : cbact) (S : list N) (coll : list N -> list N) (M0 : list N),
+    on_complete (ag ss) = false ->
+    NoDup S -> (forall x, In x S -> x < 281474976710655) ->
+    (forall A, (2 <= length A)%nat -> decode (coll A) = DCollision) ->
+    exists n e M, e_run S coll n (ag (s_start false act ss)) M0 = (e, M) /\
+      pending e = PIdle /\ completions e = completions (ag ss) + 1 /\
+      result e = Some (true, uids e) /\ (forall x, In x (uids e) <-> In x S).
+Proof. exact complete_any_state_w. Qed.
+Print Assumptions c11_complete_any_state.
+
 (* the limits the statement refers to are the ones of the header *)
 Theorem c11_constants :
   MAX_EMPTY_BRANCH_ATTEMPTS = 5 /\ MAX_BRANCH_FAILURES = 5 /\ MAX_MUTE_ATTEMPTS = 5 /\
@@ -101,3 +180,11 @@ Example c11_run_conforming :
                                  (init false idle0) [] in
   result s = Some (true, [5; 6; 281474976710654]) /\ completions s = 1.
 Proof. vm_compute. split; reflexivity. Qed.
+
+(* a history with an abort inside the incremental mute phase followed by a full discovery *)
+Example c11_history_example :
+  let a1 := mkA true [] in
+  let ss := run_ops [OStart true ANone; OReply a1; OReply a1; OReply a1; OAbort; OStart false AInc]
+                    (mkSess (mkSt [] [5; 6] [] [] [] 0 0 0 false false PIdle 0 None) 0 ANone 0 []) in
+  events ss = [(0, false, [])] /\ queue (ag ss) = [] /\ uids (ag ss) = [] /\ owner ss = 1.
+Proof. vm_compute. repeat split. Qed.
